@@ -518,3 +518,75 @@ Proof. unfold update_emb_dims, diffs, emb_offsets, cumsum. simpl tl. apply diffs
 (* finite-domain fact about the generated table (case analysis over the nine stypes) *)
 Theorem stats_table_matches_model : forall s, stats_for_stype s = model_stats_for_stype s.
 Proof. intros s; destruct s; reflexivity. Qed.
+
+(* ----------------------------------------------- no stale statistics after a history *)
+Section StoreProofs.
+  Context {Frame Stat : Type}.
+  Variable compute : String.string -> Frame -> option Stat.
+
+  Lemma slookup_sset_same (s : @store Stat) c v : slookup (sset s c v) c = Some v.
+  Proof.
+    induction s as [|[c' v'] r IH]; simpl.
+    - now rewrite String.eqb_refl.
+    - destruct (String.eqb c' c) eqn:E; simpl; [now rewrite String.eqb_refl|now rewrite E].
+  Qed.
+
+  Lemma slookup_sset_other (s : @store Stat) c v c0 : c0 <> c -> slookup (sset s c v) c0 = slookup s c0.
+  Proof.
+    intros Hn. induction s as [|[c' v'] r IH]; simpl.
+    - destruct (String.eqb c c0) eqn:E; [apply String.eqb_eq in E; congruence|reflexivity].
+    - destruct (String.eqb c' c) eqn:E; simpl.
+      + apply String.eqb_eq in E. subst c'.
+        destruct (String.eqb c c0) eqn:E0; [apply String.eqb_eq in E0; congruence|reflexivity].
+      + destruct (String.eqb c' c0); [reflexivity|exact IH].
+  Qed.
+
+  (* an entry that is up to date for df stays up to date through the rest of the loop *)
+  Lemma fill_preserves cols df : forall s s' c,
+    fill compute cols df s = (s', true) -> slookup s c = compute c df -> compute c df <> None ->
+    slookup s' c = compute c df.
+  Proof.
+    induction cols as [|c0 r IH]; intros s s' c H Hc Hn; simpl in H.
+    - inversion H; subst. exact Hc.
+    - destruct (compute c0 df) as [v|] eqn:E; [|discriminate].
+      apply (IH (sset s c0 v) s' c H); [|exact Hn].
+      destruct (String.string_dec c c0) as [->|Hne].
+      + rewrite slookup_sset_same. now symmetry.
+      + now rewrite slookup_sset_other.
+  Qed.
+
+  (* a materialize whose statistics loop completes leaves, for EVERY declared column, the statistics
+     of the frame it ran on -- whatever the store held before (stale entries of earlier attempts,
+     of other frames, of column-selected copies) *)
+  Theorem fill_no_stale cols df : forall s s' c,
+    fill compute cols df s = (s', true) -> In c cols ->
+    slookup s' c = compute c df /\ compute c df <> None.
+  Proof.
+    induction cols as [|c0 r IH]; intros s s' c H Hin; [destruct Hin|].
+    simpl in H. destruct (compute c0 df) as [v|] eqn:E; [|discriminate].
+    destruct (String.string_dec c c0) as [->|Hne].
+    - split; [|congruence]. rewrite E. rewrite <- E.
+      apply (fill_preserves r df (sset s c0 v) s' c0 H); [|congruence].
+      rewrite slookup_sset_same. now symmetry.
+    - destruct Hin as [->|Hin]; [congruence|]. exact (IH _ _ _ H Hin).
+  Qed.
+
+  (* ... hence after ANY history of attempts on the shared store, if the last attempt completed, the
+     statistics of its columns are those of the frame it materialized *)
+  Theorem history_no_stale ops cols df s0 s oks :
+    run_history compute (ops ++ [(cols, df)]) s0 = (s, oks) -> last oks false = true ->
+    forall c, In c cols -> slookup s c = compute c df /\ compute c df <> None.
+  Proof.
+    revert s0 s oks. induction ops as [|[cols0 df0] r IH]; intros s0 s oks H Hl c Hin; simpl in H.
+    - destruct (fill compute cols df s0) as [s1 ok] eqn:F. inversion H; subst. simpl in Hl. subst ok.
+      exact (fill_no_stale cols df s0 s c F Hin).
+    - destruct (fill compute cols0 df0 s0) as [s1 ok] eqn:F.
+      destruct (run_history compute (r ++ [(cols, df)]) s1) as [s2 oks2] eqn:R. inversion H; subst.
+      apply (IH s1 s oks2 R); [|exact Hin].
+      destruct oks2 as [|b t]; [|exact Hl].
+      exfalso. clear -R. destruct r as [|[a b] r']; simpl in R.
+      + destruct (fill compute cols df s1); inversion R.
+      + destruct (fill compute a b s1) as [sa oka]. destruct (run_history compute (r' ++ [(cols, df)]) sa). inversion R.
+  Qed.
+
+End StoreProofs.
